@@ -90,6 +90,11 @@ def gen_power_script(rng, tier):
     L.append('R %s' % g)
     for k in allkeys:
         L.append('R %s' % k)
+    # what an operator does with a quarantined blob: the recovery tool restores every complete record from it
+    L += ['close', 'tool recover_quarantined %d %d 0' % (active_id, rng.choice([0, 1])), 'tool install %d' % active_id, 'nop recovered', 'open']
+    for (key, ln, sd) in fresh:
+        L.append('R %s' % key)
+    L.append('close')
     meta = {'fresh': fresh, 'old': sorted(set(old_keys)), 'bounds': bounds, 'layout': layout, 'n': n, 'validate': validate,
             'ignore': ignore, 'active_id': active_id, 'g': g, 'K': K, 'nclosed': nclosed}
     return '\n'.join(L) + '\n', meta
@@ -320,6 +325,20 @@ def oracle(lines, io, spec=None):
                 fails.append(tag + 'line %d: a write acknowledged after recovery is not served after the next restart: %s' % (i2, o))
     elif w_i < len(io):
         fails.append('line %d: write after recovery failed: %s' % (w_i, io[w_i]))
+    # the recovery tool on the quarantined file: every record that is complete in it comes back
+    rq = next((j for j, l in enumerate(lines) if l.startswith('tool recover_quarantined')), None)
+    if rq is not None and rq < len(io) and io[rq] != 'tool recover_quarantined absent':
+        if not io[rq].startswith('tool recover_quarantined ok'):
+            if n >= 20:      # (a file cut inside its 20-byte blob header holds no record: nothing to restore)
+                fails.append('line %d: the recovery tool fails on the quarantined blob (cut n=%d): %s' % (rq, n, io[rq]))
+        else:
+            ro = next((j for j in range(rq, len(lines)) if lines[j] == 'open'), None)
+            if ro is not None and ro < len(io) and io[ro] == 'open ok':
+                want = {key: 'R Found %d %d' % (ln, sd) for (key, ln, sd), (s0, he, me, e) in zip(fresh, layout) if e <= n}
+                for j in range(ro + 1, min(len(lines), len(io))):
+                    if lines[j].startswith('R ') and lines[j].split()[1] in want and io[j] != want[lines[j].split()[1]]:
+                        fails.append('line %d `%s`: a record that is complete in the quarantined blob is not restored by the recovery tool: %s' % (j, lines[j], io[j]))
+                        break
     return fails[:6]
 
 
